@@ -255,7 +255,9 @@ def e2eScenario (rest : List String) : Option System.Scenario :=
       | some "refused" => System.TargetKind.refused
       | some "unresolvable" => .unresolvable
       | _ => .up
-    some { up := e2eSizes up, down := [ (e2eSizes down).flatten ], targetClosesFirst := kv rest "close" == some "target",
+    some { up := e2eSizes up, down := [ (e2eSizes down).flatten ],
+           targetClosesFirst := kv rest "close" == some "target" || kv rest "close" == some "target-idle",
+           hold := kv rest "close" == some "target-idle", resetAnswer := kv rest "reset" == some "target-answer",
            preamble := if kv rest "kind" == some "http" then [[80, 79, 83, 84]] else [],
            target := target, cutAfter := (kv rest "cut").bind String.toNat?,
            appEarly := kv rest "close" == some "app-early",
